@@ -11,6 +11,7 @@ import (
 	"github.com/anishathalye/porcupine"
 	sdcpb "github.com/sdcio/sdc-protos/sdcpb"
 
+	"github.com/sdcio/data-server/pkg/datastore"
 	"github.com/sdcio/data-server/pkg/datastore/types"
 
 	"verif/sim"
@@ -109,7 +110,8 @@ func runC16(rc *sim.RunCtx) {
 	defer w.Close()
 	sched := sim.NewSched(rc, 50*time.Millisecond, 200*time.Millisecond, time.Second)
 	types.VerifYield = sched.Yield
-	defer func() { types.VerifYield = nil }()
+	datastore.VerifYield = sched.Yield
+	defer func() { types.VerifYield = nil; datastore.VerifYield = nil }()
 	rec := &recRollbacker{rc: rc, sched: sched}
 	w.DS.VerifTransactionManager().VerifWrapRollbacker(func(r types.RollbackInterface) types.RollbackInterface {
 		rec.inner = r
@@ -183,7 +185,7 @@ func runC16(rc *sim.RunCtx) {
 				if op.Locked {
 					for o := range inflight {
 						op.Others = append(op.Others, o.Kind)
-						if o.Kind == "set" && sched.ParkedAt(o.Name) == "tm.register" {
+						if o.Kind == "set" && (sched.ParkedAt(o.Name) == "tm.register" || sched.ParkedAt(o.Name) == "ds.trylock.set") {
 							op.SetMidAttempt = true
 						}
 					}
